@@ -54,7 +54,11 @@ theorem bounded_of_flags (rt : Runtime) (cfg : Cfg) (script : List LAct) (cap : 
   | failed e => simp [hp, Phase.terminal] at hnt
 
 /-- **`worker_serve` is back within `graceful_timeout + shutdown_timeout` of the trigger, however many connections are
-    stuck** — both worker classes (asyncio: on every CPython, since 4c08dc8 `wait_closed()` is no longer awaited) -/
+    stuck** — both worker classes (asyncio: on every CPython, since 4c08dc8 `wait_closed()` is no longer awaited).
+    *Scope of the model*: "stuck" = requests, streams and WebSockets whose application does not finish; the model's handlers
+    end when they are cancelled.  A handler held in a transport write its peer does not drain is not a state of this model,
+    and on the code as it is such a handler does outlive the grace period on both workers (known finding F113, found by
+    the noread_h1 scenarios of the correspondence run, which are judged by the monitors only). -/
 theorem bounded (rt : Runtime) (hc : Current rt) (cfg : Cfg) (script : List LAct) (cap : Nat) (ops : List Op) (s : W)
     (hr : run (W.init rt cfg script cap) ops = some s) (t : Nat) (ht : s.g.triggerTime = some t) :
     (∀ r, s.g.returnTime = some r → r ≤ t + cfg.gracefulTimeout + cfg.shutdownTimeout) ∧
